@@ -26,20 +26,20 @@ for i, p in enumerate(props):
     wt = "/tmp/seed/w%d" % n
     if not os.path.isdir(wt):
         subprocess.run(["git", "-C", "/repo", "worktree", "add", "--detach", wt, "HEAD"], check=True, stdout=subprocess.DEVNULL, stderr=subprocess.DEVNULL)
-    nick, touched = [], set()
+    nick, touched, funcs = [], set(), set()
     for d in sorted(glob.glob(os.path.join(VERIF, "seeded", "s*-%s-*" % p["id"].lower()))):
         nick.append('"%s"' % " ".join(os.path.basename(d).split("-")[2:]))
         for l in open(os.path.join(d, "patch.diff")):
             m = re.match(r"^\+\+\+ b/(\S+)", l)
             if m:
                 touched.add(m.group(1))
-            m = re.match(r"^@@ .* @@ func (.*?)\(", l) or re.match(r"^@@ .* @@ func \(.*?\) (\w+)", l)
+            m = re.match(r"^@@ .* @@ func \(.*?\) (\w+)", l) or re.match(r"^@@ .* @@ func (\w+)", l)
             if m:
-                pass
+                funcs.add(m.group(1))
     text = TEMPLATE
     rep = {"{WT}": wt, "{ID}": p["id"], "{TITLE}": p["title"], "{STATEMENT}": p["statement"],
            "{HOLDS}": p["quantifier"]["text"], "{ANCHORS}": ", ".join(p["anchors"]["files"]),
-           "{NICKS}": "; ".join(nick), "{TOUCHED}": ", ".join(sorted(touched))}
+           "{NICKS}": "; ".join(nick), "{TOUCHED}": ", ".join(sorted(touched)), "{FUNCS}": ", ".join(sorted(funcs))}
     for k, v in rep.items():
         text = text.replace(k, v)
     open("/tmp/seed/prompts/w%d.txt" % n, "w").write(text)
